@@ -183,6 +183,9 @@ bool apply_edit(std::string& d, const Step& st, bool& validity_preserving)
 
 bool is_transport(const std::string& op) { return op == "cut" || op == "empty" || op == "finalsep"; }
 
+struct GkfOutcome { std::string kind; long line = -1; int code = 0; std::string dump; std::string what; };
+GkfOutcome run_gkf(const std::string& B, const std::vector<size_t>& cuts, bool finalsep, bool empties);
+
 // ------------------------------------------------------- gama-local verdict ---
 struct LocalVerdict { int exit_code = 0; std::string category; long line = -1; bool refused = false; std::string out_hash_key; };
 
@@ -196,9 +199,12 @@ LocalVerdict judge_local(const procemu::Result& R, int xml_file_index)
   LocalVerdict v; v.exit_code = R.exit_code;
   const std::string& xml = xml_file_index >= 0 && (size_t)xml_file_index < R.files.size() ? R.files[xml_file_index] : R.out;
   std::string cat = find_between(xml, "<error category=\"", "\"");
+  // (an error document that could not be stored in its file goes to the standard error stream)
+  const std::string& where = !cat.empty() ? xml : R.err;
+  if (cat.empty()) cat = find_between(R.err, "<error category=\"", "\"");
   if (!cat.empty()) {
     v.category = cat; v.refused = true;
-    std::string ln = find_between(xml, "<lineNumber>", "</lineNumber>"); if (!ln.empty()) v.line = atol(ln.c_str());
+    std::string ln = find_between(where, "<lineNumber>", "</lineNumber>"); if (!ln.empty()) v.line = atol(ln.c_str());
   } else if (R.exit_code == 3 || R.exit_code == 2) {
     v.refused = true; v.category = R.exit_code == 3 ? "stderr:parser" : "stderr:exception";
     // "On line number N : what"
@@ -249,6 +255,7 @@ Verdict IoEngine::exec_local(const Plan& plan, const std::string& B, const std::
   int xml_index = (int)plan.geti("xmlfile", -1);
   bool via_stdin = !args.empty() && args[0] == "-";      // generated vectors put the input first
   std::vector<size_t> lens = lens_from_cuts(cuts, B.size());
+  for (auto& a : args) { if (a == "@X") st.add("fault.output_cannot_be_opened"); else if (a == "@FULL") st.add("fault.output_disk_full"); }
   procemu::Result A = procemu::run_gama_local(args, B, lens, err_end);
   st.add("processes"); st.add("bytes_delivered", (long long)A.delivered); st.add("chunks", (long long)lens.size() + 1);
   if (A.escaped) return Verdict::fail("C11:escaped-exception:local", 0, A.escaped_what);
@@ -266,6 +273,14 @@ Verdict IoEngine::exec_local(const Plan& plan, const std::string& B, const std::
     if (va.line < 0) return Verdict::fail(fmt("C11:refusal-without-line:local:%s", va.category.c_str()), 0, fmt("input refused (%s, exit %d) without naming a line", va.category.c_str(), A.exit_code));
     if (va.line < 1 || va.line > lines + 1) return Verdict::fail("C11:line-out-of-range:local", 0, fmt("diagnostic names line %ld, %ld lines were delivered", va.line, lines));
     st.add("refusals_located");
+  }
+  // clause 3, the other way round: an input the parser refuses is REPORTED as refused, whatever happens to the outputs
+  // (a result file that cannot be opened, a full disk).  Independent verdict: GKFparser on the same bytes.
+  if (via_stdin && !va.refused && !err_end && A.delivered > 0) {
+    GkfOutcome g = run_gkf(B, {}, false, false);
+    st.add("parses");
+    if (g.kind == "parser")
+      return Verdict::fail("C11:refusal-not-reported:local", 0, fmt("GKFparser refuses these bytes (line %ld: %s); gama-local ended with status %d and no diagnostic on any stream or file", g.line, g.what.c_str(), A.exit_code));
   }
   // clause 6: the verdict does not depend on how the bytes were cut; reference = the same bytes in one piece, clean end
   if (via_stdin && (!lens.empty() || err_end)) {
@@ -318,8 +333,6 @@ Verdict IoEngine::exec_local(const Plan& plan, const std::string& B, const std::
   }
   return Verdict();
 }
-
-struct GkfOutcome { std::string kind; long line = -1; int code = 0; std::string dump; std::string what; };
 
 GkfOutcome run_gkf(const std::string& B, const std::vector<size_t>& cuts, bool finalsep, bool empties)
 {
@@ -440,7 +453,8 @@ std::string gen_args(Rng& g, int& xmlfile)
   if (r < 5) return "-";
   std::string a = g.chance(7, 8) ? "-" : "@IN";
   int nf = 0;
-  auto file = [&]() { return fmt("@F%d", nf++); };
+  // an output file is a memfd; one in ten is a file-layer fault instead: a path that cannot be opened, or a full disk
+  auto file = [&]() -> std::string { int r = (int)g.below(20); if (r == 0) return "@X"; if (r == 1) return "@FULL"; return fmt("@F%d", nf++); };
   static const char* ALGO[] = {"gso", "svd", "cholesky", "envelope", "envelope", "bogus", "@EMPTY"};
   static const char* LANG[] = {"en", "cz", "cs", "fr", "ru", "zh", "xx", "ua", "es"};
   static const char* ENC[] = {"utf-8", "iso-8859-2", "iso-8859-2-flat", "cp-1250", "cp-1251", "latin1"};
@@ -461,7 +475,7 @@ std::string gen_args(Rng& g, int& xmlfile)
       case 5: a += std::string(" --ellipsoid ") + ELL[g.below(5)]; break;
       case 6: a += " --text " + (g.chance(1, 3) ? std::string("-") : file()); other_out = true; break;
       case 7: a += " --html " + (g.chance(1, 3) ? std::string("-") : file()); other_out = true; break;
-      case 8: if (!xml_given) { if (g.chance(1, 2)) a += " --xml -"; else { xmlfile = nf; a += " --xml " + file(); } xml_given = true; } break;
+      case 8: if (!xml_given) { if (g.chance(1, 2)) a += " --xml -"; else { std::string f = file(); if (f[1] == 'F' && f[2] != 'U') xmlfile = nf - 1; a += " --xml " + f; } xml_given = true; } break;
       case 9: a += " --octave " + file(); break;
       case 10: a += " --svg " + (g.chance(1, 4) ? std::string("-") : file()); break;
       case 11: a += " --obs " + file(); break;
